@@ -151,6 +151,28 @@ def run_case(case, rec):
                         if d > worst.get(key, (0, None))[0]:
                             worst[key] = (d, (pt, float(got2[i, jx]), float(want[i, jx])))
             rec.cmp(m * n, cell)
+    # parameters updated after compilation: the callables compiled above must follow the current values
+    if b.params and any(x[0] in ("par", "pel") for nd in nodes for x in A.walk(nd)):
+        pn_all = sorted(b.params)
+        newvals = {pn: [0.75, -1.25, 2.25, 0.5, 0.0, 1.0][(i + len(V)) % 6] for i, pn in enumerate(pn_all)}
+        for pn, nv in newvals.items():
+            b.params[pn].set(nv)
+        pt = case["points"][0]
+        x = B.point_array(V, pt)
+        jets = [R.ref_jet(D, nd, V, pt, order=1, params=newvals) for nd in nodes]
+        if all(t.regular() for _, t in jets):
+            want = np.array([j.g for j, _ in jets])
+            mag = max(max(t.mag, t.dmag) for _, t in jets)
+            for route, fn in fns.items():
+                try:
+                    got = np.asarray(fn(x.copy()), dtype=float).reshape(m, n)
+                except Exception as ex:
+                    bad(route, "after-set-call-raises:" + type(ex).__name__, pt, ex=ex)
+                    continue
+                rec.cmp(m * n, cell)
+                rec.events["after-set-comparisons"] += 1
+                if not all(close(g_, w_, RTOL, mag)[0] for g_, w_ in zip(got.reshape(-1), want.reshape(-1))):
+                    bad(route, "after-set:mismatch", pt, got=got.tolist(), want=want.tolist())
     seen_routes = set()
     for key, k in nbad.items():
         if (k >= 2 or worst[key][0] > 1e-3) and key[0] not in seen_routes:
